@@ -63,6 +63,17 @@ pub fn dn_values() -> Vec<(String, DnSpec)> {
         ("uc:CN ia5 e-acute".into(), one(Cn, Ia5, "caf\u{e9}")),
         ("uc:CN teletex BEL".into(), one(Cn, Teletex, "a\u{7}")),
         ("uc:CN teletex e-acute".into(), one(Cn, Teletex, "caf\u{e9}")),
+        // non-ASCII characters that the Unicode character predicates (is_numeric, is_alphabetic, is_whitespace,
+        // is_alphanumeric) accept: outside every restricted alphabet below BMPString
+        ("uc:CN printable superscript two".into(), one(Cn, Printable, "x\u{b2}")),
+        ("uc:CN printable arabic-indic digit".into(), one(Cn, Printable, "\u{661}")),
+        ("uc:CN printable fullwidth digit and letter".into(), one(Cn, Printable, "\u{ff11}\u{ff21}")),
+        ("uc:CN printable no-break space".into(), one(Cn, Printable, "a\u{a0}b")),
+        ("uc:CN printable em space".into(), one(Cn, Printable, "a\u{2003}b")),
+        ("uc:CN ia5 fullwidth digit".into(), one(Cn, Ia5, "\u{ff11}")),
+        ("uc:CN teletex no-break space".into(), one(Cn, Teletex, "a\u{a0}b")),
+        ("uc:CN teletex line feed after 32 good bytes".into(), one(Cn, Teletex, "0123456789abcdef0123456789abcdef\n")),
+        ("uc:CN printable e-acute after 64 good bytes".into(), one(Cn, Printable, &format!("{}\u{e9}", "a".repeat(64)))),
         // (appended) characters that text tools treat specially, at the edges of a value: part of the value like any other
         ("CN bmp ending in U+0000".into(), one(Cn, Bmp, "ab\u{0}")),
         ("O universal starting with U+0000 + CN utf8 ending in U+0000".into(), DnSpec(vec![(O, Universal, "\u{0}ab".into()), (Cn, Utf8, "cd\u{0}".into())])),
